@@ -219,6 +219,7 @@ func (m *Manager) manageReader() {
 	var pkt drpcwire.Packet
 	var err error
 	var run int
+	var invoked uint64 // id of the last stream an invoke was forwarded for
 
 	for !m.sigs.term.IsSet() {
 		// if we have a run of "small" packets, drop the buffer to release
@@ -265,6 +266,9 @@ func (m *Manager) manageReader() {
 			if curr != nil && !curr.IsTerminated() {
 				curr.Cancel(context.Canceled)
 			}
+			if pkt.Kind == drpcwire.KindInvoke {
+				invoked = pkt.ID.Stream
+			}
 
 			select {
 			case m.pkts <- pkt:
@@ -278,6 +282,14 @@ func (m *Manager) manageReader() {
 		// a new stream to be created and try again. like an invoke, we
 		// implicitly close any previous stream.
 		default:
+			// a control packet for a stream that was never invoked (for
+			// example a soft cancel that raced the creation of the stream)
+			// has nothing to act on, and no such stream will ever be
+			// created, so waiting for it would block the reader forever.
+			if pkt.Control && pkt.ID.Stream != invoked {
+				continue
+			}
+
 			if curr != nil && !curr.IsTerminated() {
 				curr.Cancel(context.Canceled)
 			}
